@@ -36,6 +36,11 @@ impl Scenario for StopScenario {
 	fn needs_io(&self) -> bool {
 		self.tcp
 	}
+	fn once_labels(&self) -> &'static [&'static str] {
+		// "writer-held-once": the connection's writer is held back before its first message only; afterwards it runs
+		// without yielding between messages, as it does when socket writes complete at once
+		if self.name.contains("writer-held-once") { &["server:ws:send_task:before_send"] } else { &[] }
+	}
 	fn tolerate_divergence(&self) -> bool {
 		self.tcp
 	}
@@ -48,6 +53,7 @@ impl Scenario for StopScenario {
 			stop_twice: self.stop_twice,
 			drop_handles: self.drop_handles,
 			slow_steps: self.slow_steps,
+			buffer: if self.name.contains("buffer1") { 1 } else { 16 },
 			..Default::default()
 		})
 	}
@@ -129,6 +135,36 @@ pub fn monitor(trace: &[String], conns: &[Conn]) -> Vec<(String, String)> {
 			v.push((format!("started-call-not-completed:{kind}"), format!("connection {c} ({kind}): the handler of call {tag} started but was dropped before it finished")));
 		}
 	}
+	// (1b) a subscribe call is a call too: once its handler has started and has been allowed to run its accept()/reject(),
+	//      the peer (if it stayed) receives the answer
+	for (i, l) in trace.iter().enumerate() {
+		let Some(rest) = l.strip_prefix("h:") else { continue };
+		let Some(tag_end) = rest.rfind(":script:") else { continue };
+		let tag = format!("h:{}", &rest[..tag_end]);
+		let Ok(script_idx) = rest[tag_end + 8..].parse::<u64>() else { continue };
+		let c: usize = rest.split(':').next().and_then(|x| x.parse().ok()).unwrap_or(99);
+		let released = trace.iter().any(|x| *x == format!(">{tag}:0:Accept") || *x == format!(">{tag}:0:Reject"));
+		if !released {
+			continue;
+		}
+		let peer_left = trace.iter().any(|x| *x == format!("c{c}:tx:CLOSE") || *x == format!("c{c}:tx:DROP") || *x == format!("c{c}:stops-reading"));
+		// the request id of the subscribe call that carries this script index
+		let req_id = trace.iter().filter_map(|x| x.strip_prefix(&format!("c{c}:tx:"))).filter_map(|t| serde_json::from_str::<Value>(t).ok()).find(|m| m["method"] == "sub" && m["params"] == serde_json::json!([script_idx])).map(|m| m["id"].clone());
+		let Some(req_id) = req_id else { continue };
+		let answered = trace.iter().position(|x| x.strip_prefix(&format!("c{c}:rx:")).and_then(|t| serde_json::from_str::<Value>(t).ok()).map_or(false, |m| m["id"] == req_id));
+		if !peer_left {
+			match answered {
+				None => v.push(("started-subscribe-call-not-answered:ws".into(), format!("connection {c}: the handler of the subscribe call {req_id} started (position {i}) and ran its accept()/reject(), but the peer, which stayed connected, never received the answer"))),
+				Some(a) => {
+					if let Some(s) = stopped_at {
+						if a > s {
+							v.push(("answer-after-stopped:ws:subscribe".into(), format!("connection {c}: the answer to subscribe call {req_id} reached the peer at position {a}, after stopped() resolved at {s}")));
+						}
+					}
+				}
+			}
+		}
+	}
 	if let Some(s) = stopped_at {
 		for (i, l) in trace.iter().enumerate().skip(s + 1) {
 			// (2) nothing is handed to a transport after stopped() resolved
@@ -147,6 +183,11 @@ pub fn monitor(trace: &[String], conns: &[Conn]) -> Vec<(String, String)> {
 		}
 	}
 	v
+}
+
+/// harness points plus the connection writer's point (the writer can be held back while replies queue up)
+fn mask_send_task(l: &str) -> bool {
+	!l.starts_with("client:") && (!l.starts_with("server:") || l == "server:ws:send_task:before_send" || l == "server:ws:graceful_shutdown:enter")
 }
 
 pub fn scenarios(thorough: bool) -> Vec<StopScenario> {
@@ -175,10 +216,17 @@ pub fn scenarios(thorough: bool) -> Vec<StopScenario> {
 	// control frames from the peer while the server waits for pending calls: they are not a disconnect
 	add("ws-peer-pongs-during-stop", vec![ws(vec![PeerAct::SlowCall, PeerAct::Pong])], vec![], false, false, 1, mask_harness_only);
 	add("ws-peer-pings-during-stop", vec![ws(vec![PeerAct::SlowCall, PeerAct::Ping, PeerAct::Call])], vec![], false, false, 1, mask_harness_only);
+	// a subscribe call in flight at stop while the connection's outgoing buffer (capacity 1) is full and the writer is held back
+	for (how, script) in [("accept", vec![Accept]), ("reject", vec![Reject])] {
+		add(&format!("ws-subscribe-{how}-in-flight-buffer1-writer-point"), vec![ws(vec![PeerAct::Call, PeerAct::Call, PeerAct::Subscribe(0)])], vec![script.clone()], false, false, 1, mask_send_task);
+		add(&format!("ws-subscribe-{how}-in-flight-buffer1-writer-held-once"), vec![ws(vec![PeerAct::Call, PeerAct::Call, PeerAct::Subscribe(0)])], vec![script], false, false, 1, mask_send_task);
+	}
+	add("ws-slow-call-buffer1-writer-held-once", vec![ws(vec![PeerAct::Call, PeerAct::Call, PeerAct::SlowCall])], vec![], false, false, 1, mask_send_task);
 	add("two-ws", vec![ws(vec![PeerAct::SlowCall]), ws(vec![PeerAct::SlowCall, PeerAct::Call])], vec![], false, false, 1, mask_harness_only);
 	add("ws-two-calls-server-points", vec![ws(vec![PeerAct::SlowCall, PeerAct::SlowCall])], vec![], false, false, 1, mask_all_server);
 	add("two-ws-one-http", vec![ws(vec![PeerAct::SlowCall]), ws(vec![PeerAct::Subscribe(0)]), http(vec![HttpAct::SlowCall])], vec![vec![Accept, Send, Send]], true, false, 1, mask_harness_only);
 	if thorough {
+		add("ws-subscribe-accept-in-flight-buffer1-server-points", vec![ws(vec![PeerAct::Call, PeerAct::Call, PeerAct::Subscribe(0)])], vec![vec![Accept]], false, false, 1, mask_all_server);
 		add("ws-slow-call-2-steps-server-points", vec![ws(vec![PeerAct::SlowCall])], vec![], false, false, 2, mask_all_server);
 		add("ws-three-calls", vec![ws(vec![PeerAct::SlowCall, PeerAct::SlowCall, PeerAct::Call])], vec![], false, false, 1, mask_harness_only);
 		add("ws-and-http-server-points", vec![ws(vec![PeerAct::SlowCall]), http(vec![HttpAct::SlowCall])], vec![], false, false, 1, mask_all_server);
@@ -214,7 +262,7 @@ pub fn scenarios(thorough: bool) -> Vec<StopScenario> {
 pub fn check(rep: &Reporter) {
 	let thorough = rep.tier.thorough();
 	rep.set_rule(
-		"0–3 connections (WebSocket and keep-alive HTTP/1.1, raw peers over in-memory duplexes) with calls to a handler that parks at scheduling points, optional open subscription; stop() (or dropping every ServerHandle) is its own scheduling point and therefore lands at every position: before the call bytes are sent, sent but unread, handler started, handler finished but reply unwritten, reply written; second stop(), peer close/drop and unsolicited Pong/Ping frames racing the stop; per scenario also the library's cfg points in the WebSocket tasks. Monitor: every call whose handler started and whose peer stayed is answered, the handler ran to completion, no transport write and no handler start after stopped() resolved, stopped() resolves and every serve future ends.",
+		"0–3 connections (WebSocket and keep-alive HTTP/1.1, raw peers over in-memory duplexes) with calls to a handler that parks at scheduling points, optional open subscription; stop() (or dropping every ServerHandle) is its own scheduling point and therefore lands at every position: before the call bytes are sent, sent but unread, handler started, handler finished but reply unwritten, reply written; second stop(), peer close/drop and unsolicited Pong/Ping frames racing the stop; per scenario also the library's cfg points in the WebSocket tasks. Monitor: every call (incl. subscribe calls whose handler ran accept()/reject()) whose handler started and whose peer stayed is answered, the handler ran to completion, no transport write and no handler start after stopped() resolved, stopped() resolves and every serve future ends.",
 	);
 	rep.assume("'handed to the transport' is observed as a write on the server half of the duplex (logged by a pass-through wrapper)");
 	rep.assume("SRV-TCP legs (Server::start over loopback sockets): quiescence = the runtime polled nothing but the driver for 4 consecutive rounds; the order 'answer read by the peer' vs 'stopped() resolved' is not judged there; every schedule is re-executed and a divergence is counted as inconclusive");
